@@ -872,7 +872,15 @@ class TestNode(Runnable):
         else:
 
             # last worker should "close the door" for all workers that opened it and left
-            for picked_worker in self.shared_involved_workers:
+            # as well as for workers that have not reached it yet but already hold tests depending on it
+            waiting_workers = {
+                w
+                for s in TestSwarm.run_swarms.values()
+                for w in s.workers
+                for node in [self, *self.bridged_nodes]
+                if w.id in node.params["name"] and len(node.cleanup_nodes) > 0
+            }
+            for picked_worker in self.shared_involved_workers | waiting_workers:
                 # TODO: provide swarm filtering not just here but universally wherever needed
                 if (
                     worker.swarm_id != "localhost"
